@@ -166,34 +166,10 @@ def run(ctx: Ctx) -> None:
     from .. import printer as _printer
     from .c19 import special_block_rules
 
-    S, G = e.S, e.G
-    special_keys = set(special_block_rules(G))
     n4 = 0
-    for t in S.types():
-        if t == "symbolset":
-            continue
-        for k, node in sorted(S.slots(t).items()):
-            if k in special_keys:
-                continue
-            classes = [vc for vc in _printer.classes_for(S, t, k, node) if vc.expect not in ("RAISE",)]
-            if not classes:
-                continue
-            vc = next((c for c in classes if c.expect == "BARE_NUM"), classes[0])
-            bad = []
-            for indent in (0, 1, 2, 4, 7):
-                is_rep = k in repo.const("tokens", "REPEATED_KEYS")
-                mk = lambda t=t, k=k, vc=vc, is_rep=is_rep: cd([("__type__", t), (k, [W("rep")] if is_rep else vc.make('"'))])
-                outs = L.format_lines(mk, lambda indent=indent: L.sym_options(end_comment=False, align_values=True, indent=indent, spacer=" "), level=0, fork=False)
-                if len(outs) != 1 or outs[0][1] != "return":
-                    raise AnalysisError(f"_format not evaluable for {t}.{k}: {outs}")
-                for ln in outs[0][2]:
-                    s2 = pai.as_sstr(ln)
-                    txt = "".join(p if isinstance(p, str) else "□" for p in s2.pieces)
-                    stripped = txt.lstrip(" ")
-                    if stripped.upper().startswith(k.upper()) and len(stripped) > len(k) and stripped[len(k)] != " ":
-                        bad.append((indent, stripped[:24]))
-            n4 += 1
-            ctx.check(not bad, "O4", f"{t}.{k}", locf, "separated under every indent", f"with align_values the keyword {k.upper()} is glued to its value: {bad[:3]} (it is written by the padded writer but not counted by compute_max_key_length)")
+    for t, k, bad in _printer.glued_under_alignment(e, L):
+        n4 += 1
+        ctx.check(not bad, "O4", f"{t}.{k}", locf, "separated under every indent", f"with align_values the keyword {k.upper()} is glued to its value: {bad[:3]} (it is written by the padded writer but not counted by compute_max_key_length)")
     ctx.units["keywords_checked_under_align_values"] = n4
 
     # ---- O3 ------------------------------------------------------------------------------------------
